@@ -119,6 +119,8 @@ class Run(object):
                 self.on_step("before-start", i, self)
             self.gens[i] = make_generator(self.t, self.requests[i])
             self.started[i] = True
+        from .ops import reset_budget
+        reset_budget()
         try:
             state = next(self.gens[i])
         except StopIteration:
